@@ -175,10 +175,18 @@ struct Inner {
     cmd_hold: bool,
     /// the protocol event loop is not polled for the time being (`phold`)
     proto_hold: bool,
+    /// connections established while the protocol loop is held: they cannot be closed before the
+    /// protocol has seen them (the adapter does not model a connection that is gone before its
+    /// `ConnectionEstablished` is handled)
+    held_conns: std::collections::HashSet<u64>,
     /// iteration orders of the multi-peer `OpenSubstream` commands forwarded during this operation
     orders: Vec<String>,
     /// sink clones handed out by `notification_sink` (`None` = dropped)
-    sinks: Vec<Option<NotificationSink>>,
+    sinks: Vec<Option<(NotificationSink, u64)>>,
+    /// peers whose connection task(s) are held back, and the sending modes used towards them since
+    held_peers: std::collections::HashSet<u64>,
+    pend_sync: std::collections::HashSet<u64>,
+    pend_async: std::collections::HashSet<u64>,
     _manager: TransportManager,
     manager_handle: crate::transport::manager::TransportManagerHandle,
     tx: Sender<InnerTransportEvent>,
@@ -271,8 +279,12 @@ impl Inner {
             fwd_tx,
             cmd_hold: false,
             proto_hold: false,
+            held_conns: Default::default(),
             orders: Vec::new(),
             sinks: Vec::new(),
+            held_peers: Default::default(),
+            pend_sync: Default::default(),
+            pend_async: Default::default(),
             _manager: manager,
             manager_handle,
             tx,
@@ -436,6 +448,24 @@ impl Inner {
         );
         drop((tx, _manager, manager_handle, conns, pipes));
         res
+    }
+
+    /// While the connection task of a peer is held back the user does not mix sending modes towards it
+    /// (which of two non-empty queues the task's `select!` serves first is not determined; that
+    /// interleaving is the subject of C12). `true` = the send is not performed.
+    fn mix_guard(&self, p: u64, is_async: bool) -> bool {
+        self.held_peers.contains(&p)
+            && if is_async { self.pend_sync.contains(&p) } else { self.pend_async.contains(&p) }
+    }
+
+    fn note_pending(&mut self, p: u64, is_async: bool) {
+        if self.held_peers.contains(&p) {
+            if is_async {
+                self.pend_async.insert(p);
+            } else {
+                self.pend_sync.insert(p);
+            }
+        }
     }
 
     fn open_peers(&self) -> Vec<u64> {
@@ -652,6 +682,9 @@ impl NotifBox {
                 let cap = kv.get("cap").and_then(|v| v.parse().ok()).unwrap_or(64usize);
                 let drain = kv.get("drain").map(|v| *v != "0").unwrap_or(true);
                 let (ctx, crx) = channel(cap.max(1));
+                if inner.proto_hold {
+                    inner.held_conns.insert(p);
+                }
                 inner.generation += 1;
                 let id = ConnectionId::from(inner.generation);
                 inner.conns.insert(
@@ -676,6 +709,9 @@ impl NotifBox {
             ["disc", p] => {
                 let Some(p) = num(p) else { return "bad-op".into() };
                 let p = p as u64;
+                if inner.proto_hold && inner.held_conns.contains(&p) {
+                    return "ignored".into();
+                }
                 let Some(conn) = inner.conns.remove(&p) else {
                     return "ignored".into();
                 };
@@ -819,6 +855,9 @@ impl NotifBox {
                     t.held = true;
                     n += 1;
                 }
+                if n > 0 {
+                    inner.held_peers.insert(p as u64);
+                }
                 format!("ok held={n}")
             }
             ["unhold", p] => {
@@ -826,6 +865,9 @@ impl NotifBox {
                 for t in inner.tasks.iter_mut().filter(|t| t.peer == Some(p as u64)) {
                     t.held = false;
                 }
+                inner.held_peers.remove(&(p as u64));
+                inner.pend_sync.remove(&(p as u64));
+                inner.pend_async.remove(&(p as u64));
                 let calls = inner.settle();
                 with_calls("ok", calls)
             }
@@ -880,8 +922,17 @@ impl NotifBox {
             }
             ["send", p, payload] => {
                 let Some(p) = num(p) else { return "bad-op".into() };
+                let known = inner.handle.notification_sink(peer(p as u64)).is_some();
+                if known && inner.mix_guard(p as u64, false) {
+                    return "ignored".into();
+                }
                 let res = match inner.handle.send_sync_notification(peer(p as u64), unhex(payload)) {
-                    Ok(()) => "ok".to_string(),
+                    Ok(()) => {
+                        if known {
+                            inner.note_pending(p as u64, false);
+                        }
+                        "ok".to_string()
+                    }
                     Err(e) => err_word(&e).to_string(),
                 };
                 let calls = inner.settle();
@@ -892,6 +943,9 @@ impl NotifBox {
                 let Some(conn) = inner.conns.get_mut(&(p as u64)) else {
                     return "ignored".into();
                 };
+                if conn.drain {
+                    return "ignored".into();
+                }
                 let mut n = 0;
                 while conn._tx.try_send(ProtocolCommand::ForceClose).is_ok() {
                     n += 1;
@@ -914,6 +968,7 @@ impl NotifBox {
             }
             ["prelease"] => {
                 inner.proto_hold = false;
+                inner.held_conns.clear();
                 inner.proto_flag.0.store(true, Ordering::SeqCst);
                 let calls = inner.settle();
                 with_calls("ok", calls)
@@ -925,7 +980,9 @@ impl NotifBox {
             ["cmdfill"] => {
                 inner.cmd_hold = true;
                 let mut n = 0usize;
-                while inner.handle.try_open_substream_batch(std::iter::empty()).is_ok() {
+                while n < 4 * crate::DEFAULT_CHANNEL_SIZE
+                    && inner.handle.try_open_substream_batch(std::iter::empty()).is_ok()
+                {
                     n += 1;
                 }
                 format!("ok filled={n}")
@@ -997,7 +1054,7 @@ impl NotifBox {
                 }
                 // the timer is fired by futures_timer's helper thread: wait for it (real time, bounded)
                 let mut calls = Vec::new();
-                for _ in 0..2000 {
+                for _ in 0..400 {
                     inner.proto_flag.0.store(true, Ordering::SeqCst);
                     calls.extend(inner.settle());
                     if inner.notif.negotiation.verif_timer(&pid, dir).is_none() {
@@ -1009,6 +1066,10 @@ impl NotifBox {
             }
             ["asend", p, payload] => {
                 let Some(p) = num(p) else { return "bad-op".into() };
+                let known = inner.handle.notification_sink(peer(p as u64)).is_some();
+                if known && inner.mix_guard(p as u64, true) {
+                    return "ignored".into();
+                }
                 let res = {
                     let fut = inner.handle.send_async_notification(peer(p as u64), unhex(payload));
                     futures::pin_mut!(fut);
@@ -1019,6 +1080,9 @@ impl NotifBox {
                         Poll::Pending => "blocked",
                     }
                 };
+                if res == "ok" {
+                    inner.note_pending(p as u64, true);
+                }
                 let calls = inner.settle();
                 with_calls(res, calls)
             }
@@ -1026,17 +1090,25 @@ impl NotifBox {
                 let Some(p) = num(p) else { return "bad-op".into() };
                 match inner.handle.notification_sink(peer(p as u64)) {
                     Some(sink) => {
-                        inner.sinks.push(Some(sink));
+                        inner.sinks.push(Some((sink, p as u64)));
                         format!("ok sink={}", inner.sinks.len() - 1)
                     }
-                    None => "none".into(),
+                    None => {
+                        // every `sink` operation takes a number, so that a case can refer to "its" sink
+                        inner.sinks.push(None);
+                        format!("none sink={}", inner.sinks.len() - 1)
+                    }
                 }
             }
             [op @ ("ssend" | "sasend"), k, payload] => {
                 let Some(k) = num(k) else { return "bad-op".into() };
-                let Some(Some(sink)) = inner.sinks.get(k) else {
+                let Some(Some((sink, sp))) = inner.sinks.get(k) else {
                     return "ignored".into();
                 };
+                let sp = *sp;
+                if inner.mix_guard(sp, *op == "sasend") {
+                    return "ignored".into();
+                }
                 let res = if *op == "ssend" {
                     match sink.send_sync_notification(unhex(payload)) {
                         Ok(()) => "ok",
@@ -1053,6 +1125,9 @@ impl NotifBox {
                         Poll::Pending => "blocked",
                     }
                 };
+                if res == "ok" {
+                    inner.note_pending(sp, *op == "sasend");
+                }
                 let calls = inner.settle();
                 with_calls(res, calls)
             }
